@@ -20,6 +20,7 @@ fn factory(model: &str) -> Option<Factory> {
         "backward" => Box::new(|c: &Value| Box::new(models::backward::BW::new(c)) as Box<dyn Model>),
         "parallel" => Box::new(|c: &Value| Box::new(models::parallel::PX::new(c)) as Box<dyn Model>),
         "grl" => Box::new(|c: &Value| Box::new(models::grl::GP::new(c)) as Box<dyn Model>),
+        "forward" => Box::new(|c: &Value| Box::new(models::forward::FW::new(c)) as Box<dyn Model>),
         _ => return None,
     })
 }
